@@ -62,6 +62,8 @@ def run(sid, props):
         print("patch does not apply:", out)
         return
     results = {}
+    import time as _time
+    t_start = _time.time() - 1
     # evidence/<id>.json must describe runs against /repo as it is: keep the files as they were before this run against a modified tree
     saved = {}
     for p in props:
@@ -78,6 +80,16 @@ def run(sid, props):
         for ep, txt in saved.items():
             if txt is not None:
                 open(ep, "w").write(txt)
+    # what the check wrote as the replay of the violation belongs with the seeded change, not with the replays of the unchanged tree
+    import glob as _glob
+    for p in props:
+        for rp in _glob.glob(os.path.join(V, "replays", p + "-*.json")):
+            try:
+                rj = json.load(open(rp))
+            except Exception:
+                continue
+            if results.get(p, {}).get("exit") == 1 and os.path.getmtime(rp) >= t_start:
+                os.replace(rp, os.path.join(d, "replay-%s.json" % p))
     meta["caught_by"] = [p for p, r in results.items() if r["exit"] == 1]
     meta["check_results"] = results
     json.dump(meta, open(os.path.join(d, "meta.json"), "w"), indent=1)
